@@ -156,7 +156,7 @@ func (c *Ctx) isPkgNamed(t types.Type, name string) bool {
 		t = p.Elem()
 	}
 	n, ok := types.Unalias(t).(*types.Named)
-	return ok && n.Obj().Pkg() == c.P.Types && n.Obj().Name() == name
+	return ok && n.Obj().Pkg() == c.P.Types && core.CanonType(n.Obj().Name()) == name
 }
 
 func isPtrTo(t types.Type) (types.Type, bool) {
